@@ -15,8 +15,7 @@ ORDER_FREE = ('add', 'update', 'discard', 'remove', 'clear', 'copy', 'issubset',
               'difference', 'symmetric_difference', 'difference_update', 'intersection_update')
 
 
-def ws(s):
-    return re.sub(r'\s+', ' ', s)
+from ..pyfront import ws  # noqa: E402,F401  (whitespace-collapsed, rename/normal-form tolerant `in`)
 
 
 def run(ctx, L, tier):
